@@ -410,6 +410,9 @@ DecodesToOrb(r) == r \in {"ORB", "ORB_UPPER"}
 RcvAcct(r) == CASE DecodesToOrb(r) -> "orb" [] r = "DUST" -> "dust" [] OTHER -> r
 RcvDecodes(r) == r \in Acct \cup {"ORB", "ORB_UPPER", "DUST"}
 IsICS20(in) == in.dn # "RAWDATA"
+\* denom classes that are one-hop vouchers of the packet's own (source port, source channel):
+\* "RET" over a counterparty port called transfer, "RETPORT" over a counterparty port with another name
+RetClasses == {"RET", "RETPORT"}
 
 \* The design: every ICS-20 packet whose receiver DECODES to the module account is an orbiter packet.
 ForOrbiter(in) == IsICS20(in) /\ DecodesToOrb(in.rcv)
@@ -431,7 +434,7 @@ PlainICS20(s, in) ==
   IF AmtKind(in) = "odd" THEN Res(FALSE, "out-of-model", s, NoReq)
   ELSE IF AmtKind(in) = "bad" \/ in.amt < 1 \/ ~RcvDecodes(in.rcv) \/ ~ValidBaseDenom(in.base)
      THEN Res(FALSE, "ics20-invalid", s, NoReq)
-  ELSE IF in.dn = "RET" THEN      \* returning token: un-escrow
+  ELSE IF in.dn \in RetClasses THEN      \* returning token: un-escrow
      IF to \in BankBlocked THEN Res(FALSE, "ics20-blocked-receiver", s, NoReq)
      ELSE IF AmtKind(in) = "huge" \/ in.base \notin NativeDenoms \/ s.bal[Escrow(in.chan)][in.base] < in.amt
         THEN Res(FALSE, "ics20-insufficient-escrow", s, NoReq)
@@ -455,7 +458,7 @@ RecvOrbiter(s0, in) ==
   ELSE IF ~PayloadValid(in) THEN fail("payload-invalid")
   ELSE IF AmtKind(in) = "bad" THEN fail("amount")
   ELSE IF AmtKind(in) = "odd" THEN Res(FALSE, "out-of-model", s0, NoReq)
-  ELSE IF in.dn # "RET" THEN fail("denom-not-returning-native")
+  ELSE IF in.dn \notin RetClasses THEN fail("denom-not-returning-native")
   ELSE IF ~ValidBaseDenom(d) \/ (AmtKind(in) = "num" /\ in.amt < 1) THEN fail("transfer-attributes")
   ELSE IF in.fw.pt > (IF s0.hasParams THEN s0.maxPT ELSE 0) THEN fail("passthrough-too-long")
   ELSE IF d \in Denom /\ s0.bal["orb"][d] > 0 /\ "sweep" \in F THEN fire("sweep")
